@@ -12,7 +12,7 @@ FE = "fault_enumeration"
 CHECKS = {
     "C01": (EXPL, "4.C01", "bounded-exhaustive enumeration of token strings x options x model-absent fault; derivation-graph DAG check",
             "Every text of <=k tokens from a mechanically built token alphabet (plus every Unicode scalar value as a one-character text in thorough) is parsed under the full option product, with a deterministic step budget standing in for non-termination; str/repr/subject/labels are checked on every result.",
-            "Strings bounded to <=2 (thorough: 3 over the hazard sub-alphabet) tokens; reference times are the EDGE_TS list; termination for arbitrary scorers rests on the derivation graphs explored by C15 being finite DAGs."),
+            "Strings bounded to <=2 tokens (thorough: 3 over the hazard sub-alphabet) plus all ordered pairs of grammar sentences under joiners; reference times are the EDGE_TS list; termination for arbitrary scorers rests on the derivation graphs explored by C15 being finite DAGs."),
     "C02": (EXPL, "4.C02", "bounded-exhaustive enumeration of all streamed candidates against a calendar invariant",
             "Every candidate (not only the winner) streamed for every enumerated text x reference time x latent on/off is checked field by field against refcal; accessors are called on each.",
             "Text space bounded as in C01 plus the value-complete grammar forms; refcal is the calendar specification."),
@@ -43,11 +43,11 @@ CHECKS = {
     "C11": (EXPL, "4.C11", "exhaustive enumeration of all Unicode scalar values as a separator + bounded-exhaustive separator runs / case variants end to end",
             "Function-level claim is checked on every assigned code point; end-to-end equivalence on every corpus/grammar sentence under each variant.",
             "Category oracle is Python's unicodedata; code points on which unicodedata and the regex module disagree are counted as unresolved."),
-    "C12": (MC, "4.C12", "explicit-state BFS over call histories + exhaustive generator-step interleavings + preemption-bounded 2-thread schedule exploration (settrace scheduler) on the real code",
+    "C12": (MC, "4.C12", "explicit-state BFS over call histories + exhaustive generator-step interleavings + preemption-bounded 2-thread schedule exploration (settrace scheduler; call granularity, plus line granularity directed at shared-state write points) on the real code",
             "All histories up to the depth bound, all merges of two short streams, and all schedules up to the preemption bound are executed on the real code and compared with a fresh-process reference table; module state is fingerprinted after every operation.",
-            "Preemption at line granularity only; hash seeds are an enumerated list; bounds as reported in the evidence."),
+            "Preemption bound 1; quick: call granularity + line granularity at profiled write points of module-level state, thorough: every line point for two pairs; hash seeds are an enumerated list; reference table from one fresh interpreter per pool entry; bounds as reported in the evidence."),
     "C13": (FE, "4.C13", "exhaustive expiry-point enumeration with a virtual clock",
-            "The deadline is placed between every two consecutive clock reads of a run (virtual perf_counter); prefix property, no-raise and bounded post-deadline work are checked at every expiry point.",
+            "The deadline is placed between every two consecutive clock events of a run (virtual perf_counter; three clock models: reads only, reads+scorer/rule ticks, and ticks with the shipped scorer object passed as is and rows counted at the model); prefix property, no-raise, best-of-prefix and bounded post-deadline work (<=2 initial scorings, <=1 partial parse touched) are checked at every expiry point.",
             "Time only advances at clock reads; inputs are a fixed family incl. n repeated ambiguous tokens."),
     "C14": (EXPL, "4.C14", "bounded-exhaustive comparison of ctparse() with list(ctparse_gen()) over texts x option vectors",
             "The single-result call must equal a maximal-score element of the stream for every enumerated text and option vector.",
